@@ -141,6 +141,8 @@ def check(ctx):
     from ..lifecycle import lifecycle
     for cls in classes:
         lc = lifecycle(a, cls)
+        from ..lifecycle import rule_session_field
+        rule_session_field(ctx, catalogue(a, cls), "Q-MODE", "cleanStart", "the session mode", 'a refused or rejected connect(), or a handler, changes the session mode under which the next loss and the next CONNACK treat the pending requests')
         ctx.ob("Q-MODE", "%s the session mode is recorded when connect() is accepted" % cls_short(cls.qual), lc.clean_at_connect,
                where=where(lc.clean_event) if lc.clean_event is not None else cls.module.path,
                function=lc.clean_event.func if lc.clean_event is not None else "", construct="session-mode/recorded-at-connect",
